@@ -13,8 +13,8 @@ EXTENDS Naturals, Sequences, FiniteSets, TLC, Json
 CONSTANTS MaxKeys,    \* ids the store may hand out in one history
           Digests     \* method digests (naturals) used with the key-id store
 
-VARIABLES live, dead, kidmap, last
-vars == <<live, dead, kidmap, last>>
+VARIABLES live, dead, kidmap, bls, last     \* bls: the slots whose key is a BLS12-381 key (jpt-bbs-plus), never usable by `sign`
+vars == <<live, dead, kidmap, bls, last>>
 
 Slots == 1..MaxKeys
 Issued == live \cup dead
@@ -22,6 +22,8 @@ NoKid == 0
 
 KeyTypes == {"Ed25519", "BLS12381G2", "bogus"}
 Algs == {"EdDSA", "ES256", "bogus"}
+\* generate_bbs: both BBS ciphersuites make a key; any other proof algorithm (SU-ES256, the MAC family) is refused
+BbsAlgs == {"BLS12381_SHA256", "BLS12381_SHAKE256"}
 \* insert: only a fully private Ed25519 JWK whose alg is the compatible JWS algorithm is storable. "wrong_alg" = a known JWS
 \* algorithm that does not fit the key, "unknown_alg" = an alg member that is present but names no JWS algorithm.
 JwkClasses == {"private_alg", "public_only", "no_alg", "wrong_alg", "unknown_alg", "wrong_kty", "wrong_crv"}
@@ -31,36 +33,41 @@ PubClasses == {"own", "other", "no_alg", "wrong_alg", "unknown_alg", "wrong_kty"
 Ok(r)  == [ok |-> TRUE] @@ r
 Err    == [ok |-> FALSE]
 
-Apply(L, D, M, op) ==
+Apply(L, D, M, B, op) ==
   LET NextSlot == Cardinality(L \cup D) + 1 IN
   CASE op.name = "generate" ->
          IF op.kt = "Ed25519" /\ op.alg = "EdDSA"
-         THEN [res |-> [ok |-> TRUE, slot |-> NextSlot], live |-> L \cup {NextSlot}, dead |-> D, kidmap |-> M]
-         ELSE [res |-> Err, live |-> L, dead |-> D, kidmap |-> M]
+         THEN [res |-> [ok |-> TRUE, slot |-> NextSlot], live |-> L \cup {NextSlot}, dead |-> D, kidmap |-> M, bls |-> B]
+         ELSE [res |-> Err, live |-> L, dead |-> D, kidmap |-> M, bls |-> B]
+    [] op.name = "generate_bbs" ->                 \* JwkStorageBbsPlusExt::generate_bbs: a BLS key, held under a fresh id
+         IF op.kt = "BLS12381G2" /\ op.alg \in BbsAlgs
+         THEN [res |-> [ok |-> TRUE, slot |-> NextSlot], live |-> L \cup {NextSlot}, dead |-> D, kidmap |-> M, bls |-> B \cup {NextSlot}]
+         ELSE [res |-> Err, live |-> L, dead |-> D, kidmap |-> M, bls |-> B]
     [] op.name = "insert" ->
          IF op.jwk = "private_alg"
-         THEN [res |-> [ok |-> TRUE, slot |-> NextSlot], live |-> L \cup {NextSlot}, dead |-> D, kidmap |-> M]
-         ELSE [res |-> Err, live |-> L, dead |-> D, kidmap |-> M]
+         THEN [res |-> [ok |-> TRUE, slot |-> NextSlot], live |-> L \cup {NextSlot}, dead |-> D, kidmap |-> M, bls |-> B]
+         ELSE [res |-> Err, live |-> L, dead |-> D, kidmap |-> M, bls |-> B]
     [] op.name = "sign" ->       \* a signature is only ever made with the private key stored under that id
-         [res |-> [ok |-> op.slot \in L /\ op.pub \in {"own", "other"}], live |-> L, dead |-> D, kidmap |-> M]
+         [res |-> [ok |-> op.slot \in (L \ B) /\ op.pub \in {"own", "other"}], live |-> L, dead |-> D, kidmap |-> M, bls |-> B]
     [] op.name = "delete" ->
-         IF op.slot \in L THEN [res |-> [ok |-> TRUE], live |-> L \ {op.slot}, dead |-> D \cup {op.slot}, kidmap |-> M]
-         ELSE [res |-> Err, live |-> L, dead |-> D, kidmap |-> M]
+         IF op.slot \in L THEN [res |-> [ok |-> TRUE], live |-> L \ {op.slot}, dead |-> D \cup {op.slot}, kidmap |-> M, bls |-> B]
+         ELSE [res |-> Err, live |-> L, dead |-> D, kidmap |-> M, bls |-> B]
     [] op.name = "exists" ->
-         [res |-> [ok |-> TRUE, v |-> op.slot \in L], live |-> L, dead |-> D, kidmap |-> M]
+         [res |-> [ok |-> TRUE, v |-> op.slot \in L], live |-> L, dead |-> D, kidmap |-> M, bls |-> B]
     [] op.name = "insert_key_id" ->
-         IF M[op.d] = NoKid THEN [res |-> [ok |-> TRUE], live |-> L, dead |-> D, kidmap |-> [M EXCEPT ![op.d] = op.kid]]
-         ELSE [res |-> Err, live |-> L, dead |-> D, kidmap |-> M]             \* the first mapping stays intact
+         IF M[op.d] = NoKid THEN [res |-> [ok |-> TRUE], live |-> L, dead |-> D, kidmap |-> [M EXCEPT ![op.d] = op.kid], bls |-> B]
+         ELSE [res |-> Err, live |-> L, dead |-> D, kidmap |-> M, bls |-> B]             \* the first mapping stays intact
     [] op.name = "get_key_id" ->
-         IF M[op.d] = NoKid THEN [res |-> Err, live |-> L, dead |-> D, kidmap |-> M]
-         ELSE [res |-> [ok |-> TRUE, kid |-> M[op.d]], live |-> L, dead |-> D, kidmap |-> M]
+         IF M[op.d] = NoKid THEN [res |-> Err, live |-> L, dead |-> D, kidmap |-> M, bls |-> B]
+         ELSE [res |-> [ok |-> TRUE, kid |-> M[op.d]], live |-> L, dead |-> D, kidmap |-> M, bls |-> B]
     [] op.name = "delete_key_id" ->
-         IF M[op.d] = NoKid THEN [res |-> Err, live |-> L, dead |-> D, kidmap |-> M]
-         ELSE [res |-> [ok |-> TRUE], live |-> L, dead |-> D, kidmap |-> [M EXCEPT ![op.d] = NoKid]]
+         IF M[op.d] = NoKid THEN [res |-> Err, live |-> L, dead |-> D, kidmap |-> M, bls |-> B]
+         ELSE [res |-> [ok |-> TRUE], live |-> L, dead |-> D, kidmap |-> [M EXCEPT ![op.d] = NoKid], bls |-> B]
 
 \* key ids used as VALUES in the key-id store: 1..3 are arbitrary distinct key ids
 KidVals == 1..3
 Ops == [name : {"generate"}, kt : KeyTypes, alg : Algs]
+       \cup [name : {"generate_bbs"}, kt : {"BLS12381G2", "Ed25519"}, alg : BbsAlgs \cup {"SU_ES256"}]
        \cup [name : {"insert"}, jwk : JwkClasses]
        \cup [name : {"sign"}, slot : 0..MaxKeys, pub : PubClasses]
        \cup [name : {"delete", "exists"}, slot : 0..MaxKeys]
@@ -70,10 +77,12 @@ Ops == [name : {"generate"}, kt : KeyTypes, alg : Algs]
 \* slots that exist at the time of the call (an id can only be named after it was handed out); 0 = never issued
 Nameable(op) == ("slot" \in DOMAIN op) => (op.slot = 0 \/ op.slot \in Issued)
 \* the model hands out at most MaxKeys ids per history (the real stores have no such bound)
-Capacity(op) == ((op.name = "generate" /\ op.kt = "Ed25519" /\ op.alg = "EdDSA") \/ (op.name = "insert" /\ op.jwk = "private_alg"))
+Capacity(op) == ((op.name = "generate" /\ op.kt = "Ed25519" /\ op.alg = "EdDSA") \/ (op.name = "insert" /\ op.jwk = "private_alg")
+                 \/ (op.name = "generate_bbs" /\ op.kt = "BLS12381G2" /\ op.alg \in BbsAlgs))
                   => Cardinality(Issued) < MaxKeys
 \* "other key's public JWK" needs a second live key
-Sensible(op) == (op.name = "sign" /\ op.pub = "other") => Cardinality(live \ {op.slot}) >= 1
+\* "other key's public JWK" needs a second live Ed25519 key
+Sensible(op) == (op.name = "sign" /\ op.pub = "other") => Cardinality((live \ bls) \ {op.slot}) >= 1
 
 MapJ(M) == [d \in Digests |-> M[d]]
 StateJ(L, D, M) == [live |-> L, dead |-> D, kidmap |-> M]
@@ -81,34 +90,35 @@ StateJ(L, D, M) == [live |-> L, dead |-> D, kidmap |-> M]
 RECURSIVE SetToSeq(_)
 SetToSeq(S) == IF S = {} THEN <<>> ELSE LET x == CHOOSE x \in S : \A y \in S : x <= y IN <<x>> \o SetToSeq(S \ {x})
 MapSeq(M) == [i \in 1..Cardinality(Digests) |-> M[SetToSeq(Digests)[i]]]
-J(L, D, M) == [live |-> SetToSeq(L), dead |-> SetToSeq(D), kidmap |-> MapSeq(M)]
+J(L, D, M, B) == [live |-> SetToSeq(L), dead |-> SetToSeq(D), kidmap |-> MapSeq(M), bls |-> SetToSeq(B)]
 
-Init == /\ live = {} /\ dead = {} /\ kidmap = [d \in Digests |-> NoKid]
-        /\ last = [pre |-> J(live, dead, kidmap), op |-> [name |-> "init"], res |-> [ok |-> TRUE], post |-> J(live, dead, kidmap)]
+Init == /\ live = {} /\ dead = {} /\ kidmap = [d \in Digests |-> NoKid] /\ bls = {}
+        /\ last = [pre |-> J(live, dead, kidmap, bls), op |-> [name |-> "init"], res |-> [ok |-> TRUE], post |-> J(live, dead, kidmap, bls)]
 
 Next == \E op \in Ops :
           /\ Nameable(op) /\ Sensible(op) /\ Capacity(op)
-          /\ LET r == Apply(live, dead, kidmap, op)
-             IN /\ live' = r.live /\ dead' = r.dead /\ kidmap' = r.kidmap
-                /\ last' = [pre |-> J(live, dead, kidmap), op |-> op, res |-> r.res, post |-> J(r.live, r.dead, r.kidmap)]
+          /\ LET r == Apply(live, dead, kidmap, bls, op)
+             IN /\ live' = r.live /\ dead' = r.dead /\ kidmap' = r.kidmap /\ bls' = r.bls
+                /\ last' = [pre |-> J(live, dead, kidmap, bls), op |-> op, res |-> r.res, post |-> J(r.live, r.dead, r.kidmap, r.bls)]
 
 Spec == Init /\ [][Next]_vars
 
 -----------------------------------------------------------------------------
-TypeOK == live \subseteq Slots /\ dead \subseteq Slots /\ kidmap \in [Digests -> {NoKid} \cup KidVals]
+TypeOK == live \subseteq Slots /\ dead \subseteq Slots /\ kidmap \in [Digests -> {NoKid} \cup KidVals] /\ bls \subseteq (live \cup dead)
 FreshIds == live \cap dead = {}                   \* an id is never handed out twice, a deleted id never comes back
 StepLaws ==
   LET op == last'.op IN
-  /\ (op.name \in {"generate", "insert"} /\ last'.res.ok) => last'.res.slot \notin (live \cup dead)
+  /\ (op.name \in {"generate", "insert", "generate_bbs"} /\ last'.res.ok) => last'.res.slot \notin (live \cup dead)
+  /\ (op.name = "sign" /\ op.slot \in bls) => ~last'.res.ok             \* a BLS key never signs through JwkStorage::sign
   /\ (op.name \in {"sign", "exists", "delete"} /\ op.slot \notin live) =>
         (IF op.name = "exists" THEN last'.res.v = FALSE ELSE ~last'.res.ok)      \* deleted / never issued ids do nothing
   /\ op.name = "insert_key_id" =>
         /\ last'.res.ok = (kidmap[op.d] = NoKid)
         /\ ~last'.res.ok => kidmap' = kidmap                                       \* the first mapping stays intact
         /\ last'.res.ok => kidmap'[op.d] = op.kid
-  /\ ~last'.res.ok => (live' = live /\ dead' = dead /\ kidmap' = kidmap)
+  /\ ~last'.res.ok => (live' = live /\ dead' = dead /\ kidmap' = kidmap /\ bls' = bls)
 StepProp == [][StepLaws]_vars
 
-View == <<live, dead, kidmap>>
+View == <<live, dead, kidmap, bls>>
 EmitT == PrintT(<<"CASE", ToJson(last')>>)
 =============================================================================
